@@ -1012,7 +1012,10 @@ class GenUnit:
         self.trusted_scan = []
 
 
-def generate(unit, vacuity=False, only=None):
+def generate(unit, vacuity=False, only=None, force_stub=None):
+    """force_stub: {qual: reason} - functions whose extracted text Verus rejected (a construct outside the dialect);
+    they are emitted as stubs carrying their contract and reported as undecided, like a lost anchor."""
+    force_stub = force_stub or {}
     Source.reset()
     dirs = parse_vspec(unit_path(unit))
     gu = GenUnit(unit)
@@ -1046,6 +1049,8 @@ def generate(unit, vacuity=False, only=None):
             emit("}\n")
         elif d.kind == "fn":
             try:
+                if d.args[0] in force_stub:
+                    raise ExtractError("outside the dialect: " + force_stub[d.args[0]])
                 g = gen_fn(d, strip, "verify", vacuity=vacuity)
             except ExtractError as e:
                 # a lost anchor / dialect escape in ONE function must not take the unit down: the function is
